@@ -13,10 +13,11 @@ THEOREMS = ["subst_accepts", "subst_total", "subst_keeps_rest", "subst_given_req
             "subst_pins_scalar", "subst_pins_bool_int", "subst_pins_float_precision",
             "subst_accepts_counterexample", "subst_accepts_contains_counterexample",
             "subst_accepted_carries", "subst_generated_carries", "carries_example", "subst_accepted_carries_counterexample",
-            "genScalar_fixed_eq_extracted", "shortcut_everywhere"]
+            "genScalar_fixed_eq_extracted", "shortcut_everywhere",
+            "substWindows_first", "substWindows_none", "substElems_refused_of_zip"]
 FILES = ["D42/Model/Data.lean", "D42/Model/Validate.lean", "D42/Model/Subst.lean", "D42/Props/C14.lean", "D42/Props/C12.lean",
          "D42/Props/C05.lean", "D42/Props/C04.lean", "D42/Props/C01.lean", "D42/Props/C04Carries.lean",
-         "D42/Gen/GenProg.lean", "D42/Props/GenProg.lean", "D42/Props/C04All.lean"]
+         "D42/Gen/GenProg.lean", "D42/Props/GenProg.lean", "D42/Props/C04Scan.lean", "D42/Props/C04All.lean"]
 
 EVIDENCE = dict(
     level="proof",
